@@ -329,11 +329,26 @@ def job_convert_layout(j, seed):
               'source_position': sym_vector('src', 'm'), 'sample_position': sym_vector('smp', 'm')}
     masks = {'m': sc.array(dims=['spectrum'], values=[False] * nb)}
     calls = []
+    results = []
+    if target == 'energy_transfer':
+        coords['incident_energy' if layout in ('tiling', 'trailing', 'empty-bin') else 'final_energy'] = sc.scalar(C.sym_var('Efix', sign='+'), unit='meV')
+
+    def _result(src):
+        """What transform_coords hands back: the events (converted event coordinate) plus the accompanying dense bin-edge
+        coordinate of the target, which for an unphysical edge is NaN (and may be infinite): convert() has to return this
+        object as it is."""
+        nan, inf = C.R(special='nan'), C.R(special='inf')
+        ea = np.empty((3,), dtype=object)
+        ea[0], ea[1], ea[2] = nan, C.sym_var('edge1'), (inf if target != 'energy_transfer' else C.sym_var('edge2'))
+        edges = V.Variable(_arr=ea, dims=('tof_edge',), unit=V.parse_unit('meV'), dtype=V.DType.float64)
+        res = sc.DataArray(src.data, coords={**{k_: v_ for k_, v_ in src.coords.items()}, target: edges}, masks=dict(src.masks))
+        results.append((res, edges, [x for x in ea], {k_: v_ for k_, v_ in res.coords.items()}))
+        return res
 
     class RecDA(sc.DataArray):
         def transform_coords(self, targets, graph=None, **kw):
             calls.append((self, targets, graph, kw))
-            return ('converted', len(calls))
+            return _result(self)
 
         def copy(self, deep=True):
             c = super().copy(deep=deep)
@@ -361,8 +376,21 @@ def job_convert_layout(j, seed):
                 cands.append((sig, case, name))
             return ob.status == 'discharged'
 
-        if not chk('transform_coords is applied exactly once and its result is returned', len(calls) >= 1 and p.value == ('converted', len(calls)) and calls[-1][1] == target, 'C06:convert:delegation'):
+        if not chk('transform_coords is applied exactly once and its result is returned', len(calls) >= 1 and len(results) >= 1 and p.value is results[-1][0] and calls[-1][1] == target, 'C06:convert:delegation'):
             continue
+        res, edges, evals, rcoords = results[-1]
+
+        def same_val(a_, b_):
+            a_, b_ = C.R.lift(a_), C.R.lift(b_)
+            if a_.special or b_.special:
+                return C.B.const(a_.special == b_.special)
+            return a_ == b_
+
+        ok_keys = set(res.coords.keys()) == set(rcoords) and all(res.coords[k_] is rcoords[k_] for k_ in rcoords)
+        chk('the result of transform_coords is returned as it is: same coordinates (objects), none added, dropped or replaced', ok_keys, 'C06:convert:result-edited')
+        now = res.coords[target]
+        chk('the accompanying bin-edge coordinate keeps the values the conversion function gave it (NaN stays NaN)',
+            C.all_of([same_val(now.values[i_], evals[i_]) for i_ in range(3)]) if now.shape == (3,) else C.FALSE, 'C06:convert:result-edited')
         got = calls[-1][0]
         gb = got.data.bins
         if not chk('data handed on is binned', gb is not None, 'C06:convert:bins'):
@@ -380,6 +408,7 @@ def job_convert_layout(j, seed):
                 & C.B.const(buf.data.dtype == weights.dtype and buf.data.unit == weights.unit and set(buf.coords.keys()) == {origin, 'pulse_time'}), 'C06:convert:events')
         chk('pixel coordinates and masks handed on', set(got.coords.keys()) == set(coords) and all(got.coords[c_] is coords[c_] for c_ in coords) and set(got.masks) == {'m'}, 'C06:convert:coords')
         written = {b.id for b in V.WRITE_LOG}
+        chk('no buffer of the result is written after the conversion', edges._buf.id not in written, 'C06:convert:result-edited')
         argb = {weights._buf.id, ev_coord._buf.id, binned._buf.id, *[c_._buf.id for c_ in coords.values()]}
         chk('input not written', not (argb & written), 'C06:convert:mutation')
         chk('input bins untouched', da.data is binned and binned._bins._layout['begin'] == snap['begin'] and binned._bins._layout['end'] == snap['end'], 'C06:convert:mutation')
@@ -401,7 +430,7 @@ def run(chk):
     run_jobs(chk, job_gravity, ['float64', 'float32'])
     conv = loader.load('core.conversions')
     chk.functions += loader.describe_exprs(['conv.convert', 'conv.deduce_conversion_graph', 'conv._deduce_energy_mode'], {**globals(), **locals()})
-    lj = [(lay, 'tof', tgt, d) for lay in LAYOUTS for tgt, d in (('wavelength', 'float64'), ('dspacing', 'int64'), ('energy', 'float32'))]
+    lj = [(lay, 'tof', tgt, d) for lay in LAYOUTS for tgt, d in (('wavelength', 'float64'), ('dspacing', 'int64'), ('energy', 'float32'), ('energy_transfer', 'float64'))]
     if chk.tier == 'thorough':
         lj += [(lay, 'tof', tgt, d) for lay in LAYOUTS for tgt, d in (('Q', 'float32'), ('energy', 'int64'), ('wavelength', 'int32'))]
     run_jobs(chk, job_convert_layout, lj)
@@ -457,6 +486,12 @@ def replay_real(case):
         pos = sc.vectors(dims=['spectrum'], values=rng.normal(size=(nb, 3)) + [0, 0, 2.0], unit='m')
         da = sc.DataArray(b, coords={'position': pos, 'source_position': sc.vector([0.0, 0.0, -10.0], unit='m'), 'sample_position': sc.vector([0.0, 0.0, 0.0], unit='m')},
                           masks={'m': sc.array(dims=['spectrum'], values=[False] * nb)})
+        if target == 'energy_transfer':
+            # events binned in (spectrum, tof) with a dense tof bin-edge coordinate whose first edge lies before t0
+            b = sc.bins(begin=sc.array(dims=['spectrum', 'tof'], values=np.asarray(begin).reshape(nb, 1), unit=None), end=sc.array(dims=['spectrum', 'tof'], values=np.asarray(end).reshape(nb, 1), unit=None), dim='event', data=ev)
+            ename = 'incident_energy' if case['layout'] in ('tiling', 'trailing', 'empty-bin') else 'final_energy'
+            da = sc.DataArray(b, coords={**da.coords, 'tof': sc.array(dims=['tof'], values=[0.0, 20000.0], unit='us'), ename: sc.scalar(35.0, unit='meV')},
+                              masks={'m': sc.array(dims=['spectrum'], values=[False] * nb)})
         keep = da.copy()
         try:
             out = scn.convert(da, origin=origin, target=target, scatter=True)
@@ -464,6 +499,14 @@ def replay_real(case):
             return {'reproduced': True, 'detail': f'convert raises {type(e).__name__}: {e}'[:300]}
         if not sc.identical(da, keep):
             bad.append('convert modified its input')
+        if target == 'energy_transfer':
+            out = out.squeeze()
+            g = scn.conversion_graph('tof', 'energy_transfer', True, 'direct_inelastic' if ename == 'incident_energy' else 'indirect_inelastic')
+            dense = sc.DataArray(sc.zeros(dims=['spectrum', 'tof'], shape=[nb, 1]), coords=dict(keep.coords)).transform_coords('energy_transfer', graph=g)
+            full = scn.convert(keep, origin=origin, target=target, scatter=True)
+            ge, de = full.coords['energy_transfer'], dense.coords['energy_transfer']
+            if ge.dims != de.dims or not np.array_equal(ge.values, de.values, equal_nan=True):
+                bad.append(f'bin-edge coordinate of event data {ge.values.tolist()} != the same edges converted as dense data {de.values.tolist()}')
         for i in range(nb):
             got = out['spectrum', i].values
             exp = ev['event', begin[i]:end[i]]
